@@ -418,9 +418,11 @@ pub fn supervise(a: &HashMap<String, String>) -> i32 {
         let mut case = props::gen_case(&prop, tier, seed, *idx, false);
         case.free_run = true;
         *totals.entry("fallback.free-run-cases".to_string()).or_insert(0) += 1;
-        match minimise::run_child(&bin, &case, &tmp, hang_s) {
+        // generous: a slow run on a loaded machine must not be taken for a hang (only a genuine hang costs this long)
+        let fallback_s = (6 * hang_s).max(900);
+        match minimise::run_child(&bin, &case, &tmp, fallback_s) {
             minimise::ChildRes::Timeout => {
-                viols.push((label.clone(), ViolLine { idx: *idx, v: Violation { class: "liveness.hang".into(), detail: format!("run {} made no progress for {} s under the simulator's scheduler and does not complete within {} s with free-running threads either: a call does not terminate", idx, hang_s, hang_s), thread: -1, op: -1 } }));
+                viols.push((label.clone(), ViolLine { idx: *idx, v: Violation { class: "liveness.hang".into(), detail: format!("run {} made no progress for {} s under the simulator's scheduler and does not complete within {} s with free-running threads either: a call does not terminate", idx, hang_s, fallback_s), thread: -1, op: -1 } }));
             }
             minimise::ChildRes::Out(o) => {
                 free_run_idx.insert(*idx);
